@@ -1197,6 +1197,9 @@ result_t DataFieldSet::read(const SymbolString& data, size_t offset,
     previousFullByteOffset = field->hasFullByteOffset(true, previousFirstBit);
     if (result != RESULT_EMPTY) {
       found = true;
+      if (fieldName == nullptr && !findFieldIndex) {
+        break;  // the first numeric field was requested
+      }
     }
     if (findFieldIndex && !field->isIgnored() && (fieldName == nullptr || fieldName == field->getName(-1))) {
       if (fieldIndex == 0) {
